@@ -47,9 +47,12 @@ def _worker(pid, tier, task_q, res_q, chunk, qtimeout):
             work = [prefix]
             q0, s0 = E.stats['queries'], E.stats['solver_s']
             first = True
-            t_end = time.time() + params.get('task_budget_s', 120)
+            t_start = time.time()
+            t_end = t_start + params.get('task_budget_s', 120)
             while work:
-                if out['paths'] >= chunk or time.time() > t_end:
+                # hand the remaining prefixes back after `chunk` paths, or after 2 s so that slow paths
+                # spread over all workers
+                if out['paths'] >= chunk or time.time() > t_end or (out['paths'] and time.time() - t_start > 2.0):
                     break
                 p = work.pop()
                 prof = None
@@ -98,10 +101,12 @@ def _worker(pid, tier, task_q, res_q, chunk, qtimeout):
                     else:
                         r, _ = E._check()
                         out['twin'] = (r == 'sat')  # `assert False` at the end would be violated
-                    try:
-                        w = E.witness()
-                    except Exception:
-                        w = None
+                    w = None
+                    if not prefix or hash(tuple(prefix)) % 6 == 0:      # a sample of tasks contributes a path witness
+                        try:
+                            w = E.witness()
+                        except Exception:
+                            w = None
                     if w is not None:
                         out['witnesses'].append(w)
                     if len(out['samples']) < 1:
